@@ -328,6 +328,7 @@ def replay(spec):
                 bad += _check_point(a, b, rng.uniform(-2, 2, 3), d, e, rng.uniform(-2, 2, 3), st, False)
                 bad += _check_point(a, b, z, d, e, z, st, True, mu=float(rng.choice([0.4, 0.7, 1.6, 3.0])))
                 bad += _check_point(a, b, z, d, e, z, st, True, mu=float(rng.choice([0.4, 0.7, 1.6, 3.0])), first=True)
+                bad += _check_point(a, b, z, d, e, z, st, True, mu=float(rng.choice([1 + 2e-6, 1 - 1e-5, 1 + 1e-3])))
         # repo test: constant signals
         return {'violated': bool(bad), 'detail': bad}
     pt = spec['point']
@@ -336,13 +337,13 @@ def replay(spec):
         import pandas as pd
         from pyins.strapdown import compute_increments_from_imu
         from pyins.util import GYRO_COLS, ACCEL_COLS
-        t = np.array([0.0, 0.013, 0.02, 0.05])
-        imu = pd.DataFrame(np.arange(24.0).reshape(4, 6) * 0.01, columns=GYRO_COLS + ACCEL_COLS, index=t)
         fails = []
-        for st in ('rate', 'increment'):
-            inc = compute_increments_from_imu(imu, st)
-            if len(inc) != 3 or not np.array_equal(inc.index, t[1:]) or not np.allclose(inc['dt'].values, np.diff(t), rtol=0, atol=1e-15):
-                fails.append('%s: rows/stamps/dt are not one per sample after the first' % st)
+        for t in (np.array([0.0, 0.013, 0.02, 0.05]), np.array([0.0, 0.01, 0.02 + 2e-8, 0.03]), np.array([100.0, 100.001, 100.002 + 1e-9, 100.003])):
+            imu = pd.DataFrame(np.arange(24.0).reshape(4, 6) * 0.01, columns=GYRO_COLS + ACCEL_COLS, index=t)
+            for st in ('rate', 'increment'):
+                inc = compute_increments_from_imu(imu, st)
+                if len(inc) != 3 or not np.array_equal(inc.index, t[1:]) or not np.allclose(inc['dt'].values, np.diff(t), rtol=0, atol=1e-15):
+                    fails.append('%s: rows/stamps/dt are not one per sample after the first (stamps %s: dt column %s)' % (st, t.tolist(), inc['dt'].values.tolist()))
         return {'violated': bool(fails), 'detail': fails}
     v = lambda nm: np.array([pt.get('%s%d' % (nm, i), 0.0) for i in range(3)])
     linear = pr.get('degree', 1) == 1
@@ -355,4 +356,11 @@ def replay(spec):
         if abs(mu - 1) < 0.05:
             mu = 0.5        # at equal intervals the irregular table is the regular one
     fails = _check_point(a, b, c, d, e, g, pr.get('type', 'rate'), linear, mu, first=(pr.get('irregular') == 'first'))
+    if pr.get('irregular') and not fails:
+        # "irregular" includes stamps that are ALMOST uniform (clock jitter): interval ratios within
+        # 1e-6 .. 1e-3 of one must behave like any other ratio
+        for mu_ in (1 + 2e-6, 1 - 1e-5, 1 + 1e-3):
+            fails += _check_point(a, b, c, d, e, g, pr.get('type', 'rate'), linear, mu_, first=(pr.get('irregular') == 'first'))
+            if fails:
+                break
     return {'violated': bool(fails), 'detail': fails}
